@@ -15,7 +15,7 @@ expression shape, a preprocessor directive inside a body, a ``goto``/``while``/`
 Event vocabulary: see coq/Model/Own.v.  Conventions of the emission:
   * a call that may run Python:   EUse args ; EMayCall ; EUse args ; [ENewRef r] on success
     (the arguments must stay alive for the whole call);
-  * PyDict_GetItem(d, k):         EUse d ; EUse k ; EKeyCall ; EUse k ; EUse d ; [EFetchItemD r d] on a hit;
+  * PyDict_GetItem[WithError](d, k): EUse d ; EUse k ; EKeyCall ; EUse k ; EUse d ; [EFetchItemD r d] on a hit;
   * PyDict_SetItem(d, k, v):      EUse d ; EUse k ; EUse v ; EKeyCall ; EUse k ; EUse d ;
                                   on success EStoreItem d v ; EMayCall (a replaced value is released);
   * Py_DECREF / Py_XDECREF / Py_CLEAR of a local: EDecref; of ``self->slot``: EClearSlot;
@@ -71,7 +71,7 @@ TABLE = {
     "Py_TYPE": dict(ret="static", py=False, uses=[]),
 }
 ALLOC_ONLY = {"PyDict_New", "PyTuple_New"}   # fail only when memory is exhausted
-SPECIAL = {"PyDict_GetItem", "PyDict_SetItem", "PyTuple_GET_ITEM", "PyTuple_SET_ITEM", "Py_INCREF", "Py_XINCREF",
+SPECIAL = {"PyDict_GetItem", "PyDict_GetItemWithError", "PyErr_Occurred", "PyDict_SetItem", "PyTuple_GET_ITEM", "PyTuple_SET_ITEM", "Py_INCREF", "Py_XINCREF",
            "Py_DECREF", "Py_XDECREF", "Py_CLEAR", "Py_XSETREF", "OBJECT"}
 
 TOKEN = re.compile(r"""
@@ -380,6 +380,7 @@ class State:
         self.notnone = set()
         self.facts = {}       # canonical condition text -> bool
         self.nullk = {}       # id -> True (known NULL-able parameter is NULL)/False
+        self.err = None       # is an exception pending?  known only right after PyDict_GetItemWithError
 
     def fork(self):
         return copy.deepcopy(self)
@@ -639,7 +640,11 @@ class Exec:
             sel = vs if idx == "*" else [vs[i] for i in idx]
             return [v for v in sel if v[0] in ("obj", "item") and st.nullk.get(v[1]) is not True]
 
-        if fname == "PyDict_GetItem":
+        if fname == "PyErr_Occurred":
+            if st.err is None:
+                raise Abort("PyErr_Occurred() at line %d does not follow a PyDict_GetItemWithError" % line)
+            return [(st, ("int", 1 if st.err else 0))]
+        if fname in ("PyDict_GetItem", "PyDict_GetItemWithError"):
             d, key = vs
             if d[0] != "obj":
                 raise Abort("PyDict_GetItem on %r (line %d)" % (d, line))
@@ -648,13 +653,21 @@ class Exec:
             st.events.append(("EKeyCall",))
             for v in (key, d):
                 self.use(st, v)
+            out = []
+            if fname == "PyDict_GetItemWithError":
+                bad = st.fork()
+                bad.trail.append("L%d %s: error (unhashable key / __eq__ raised)" % (line, fname))
+                bad.err = True
+                out.append((bad, NULL))
             miss = st.fork()
-            miss.trail.append("L%d PyDict_GetItem: miss" % line)
+            miss.trail.append("L%d %s: miss" % (line, fname))
+            miss.err = False if fname == "PyDict_GetItemWithError" else None
             hit = st
-            hit.trail.append("L%d PyDict_GetItem: hit" % line)
+            hit.trail.append("L%d %s: hit" % (line, fname))
+            hit.err = miss.err
             i = fx.newid(("getitem", line), "item@%d" % line)
             hit.events.append(("EFetchItem", i, d[1]))
-            return [(miss, NULL), (hit, ("obj", i))]
+            return out + [(miss, NULL), (hit, ("obj", i))]
         if fname == "PyDict_SetItem":
             d, key, val = vs
             if d[0] != "obj" or val[0] != "obj":
@@ -688,6 +701,7 @@ class Exec:
             if fname not in self.summaries:
                 raise Abort("%s calls %s which is extracted later (recursion?)" % (fx.name, fname))
             summ = self.summaries[fname]
+            st.err = None
             args = []
             for pos, v in enumerate(vs):
                 if v[0] in ("obj", "item") and st.nullk.get(v[1]) is not True:
@@ -706,6 +720,7 @@ class Exec:
         if fname not in TABLE:
             raise Abort("unknown callee %s at line %d (in %s)" % (fname, line, fx.name))
         t = TABLE[fname]
+        st.err = None
         if "tuple_arg" in t:
             self.require_tuple(fx, vs[t["tuple_arg"]], fname, line)
         used = objs(t["uses"])
